@@ -352,11 +352,22 @@ static void worker(int tid, std::vector<Rec>* recs, std::vector<NvRec>* nvs, Tok
             o << st(rc);
             if (rc == status::OK) {
                 if (g.first == nullptr) o << " NULLVALUE";
-                else {
+                else if (!vh::ptr_is_heap(g.first)) {
+                    char buf[24];
+                    std::snprintf(buf, sizeof buf, "%016llx", static_cast<unsigned long long>(reinterpret_cast<std::uintptr_t>(g.first)));
+                    o << " i" << buf;      // an inline value: returned by value
+                } else {
                     o << " " << hex(std::string_view(g.first, g.second));
                     held.push_back({g.first, g.second, vh::fnv(g.first, g.second)});
                 }
             }
+        } else if (op == "puti") {
+            // an inline (pointer-sized) value: stored by value in the slot
+            std::string k;
+            vh::unhex(w[1], k);
+            std::uintptr_t x = std::strtoull(w[2].c_str(), nullptr, 16);
+            auto rc = put<std::uintptr_t>(tok, g_storage, k, &x, sizeof(x));
+            o << st(rc);
         } else if (op == "remove") {
             std::string k;
             vh::unhex(w[1], k);
@@ -371,6 +382,7 @@ static void worker(int tid, std::vector<Rec>* recs, std::vector<NvRec>* nvs, Tok
             for (auto& e : tl) {
                 o << " " << hex(std::get<0>(e)) << "=";
                 if (std::get<1>(e) == nullptr) o << "NULLVALUE";
+                else if (!vh::ptr_is_heap(std::get<1>(e))) o << "inline";
                 else {
                     o << hex(std::string_view(std::get<1>(e), std::get<2>(e)));
                     held.push_back({std::get<1>(e), std::get<2>(e), vh::fnv(std::get<1>(e), std::get<2>(e))});
@@ -557,7 +569,7 @@ int main(int argc, char** argv) {
             std::vector<std::tuple<std::string, char*, std::size_t>> tl;
             scan<char>(g_storage, "", scan_endpoint::INF, "", scan_endpoint::INF, tl, nullptr, 0);
             std::cout << "FINAL " << tl.size();
-            for (auto& e : tl) std::cout << " " << hex(std::get<0>(e)) << "=" << (std::get<1>(e) ? hex(std::string_view(std::get<1>(e), std::get<2>(e))) : std::string("NULLVALUE"));
+            for (auto& e : tl) std::cout << " " << hex(std::get<0>(e)) << "=" << (std::get<1>(e) == nullptr ? std::string("NULLVALUE") : (vh::ptr_is_heap(std::get<1>(e)) ? hex(std::string_view(std::get<1>(e), std::get<2>(e))) : std::string("inline")));
             std::cout << "\n";
             vh::Walker wk;
             tree_instance* ti{};
